@@ -17,7 +17,9 @@ RULE = ('A real BP agent with one transmit route whose MTU is drawn relative to 
         'computed with the independent encoder): every string <= MTU, fragments carry identity + fragment flag + own '
         'offset + total length, ranges tile [0,total) exactly, concatenation == payload, offset-0 fragment carries all '
         'extension blocks, later ones exactly the replicate ones, CRCs valid; NO_FRAGMENT / already a fragment / fits: '
-        'exactly one bundle with the payload unchanged; infeasible: nothing oversized or altered is transmitted.  '
+        'exactly one bundle with the payload unchanged; infeasible: nothing oversized or altered is transmitted.  Optionally the convergence '
+        'layer of the route has reported the next hop as seen (as the UDPCL adaptor does for every polling message) before the bundle is sent: '
+        'the configured route and its MTU still apply.  '
         'Non-trivial = >= 2 fragments emitted or the infeasible branch; distinct by SHA-1 of the case.')
 SHRINK_KEYS = ()
 ASSUMPTIONS = [
@@ -72,7 +74,9 @@ def cases(draw):
             # payload object when originated and decoded into one when received
             'admin': draw(st.sampled_from([False, False, False, True])),
             # originated bundles only: the payload block is handed over without a block number (send_bundle assigns it)
-            'unnumbered': draw(st.sampled_from([False, False, True]))}
+            'unnumbered': draw(st.sampled_from([False, False, True])),
+            # the CL has reported the next hop of the route as seen (0, 1 or 3 times) before the bundle is sent
+            'seen': draw(st.sampled_from([0, 0, 0, 1, 3]))}
 
 
 def strategy(tier):
@@ -86,6 +90,8 @@ def enumerate_cases(tier):
         yield case
     for case in _admin_cases(tier):
         yield case
+    for case in _seen_cases(tier):
+        yield case
     for case in _unnumbered_cases(tier):
         yield case
     lengths = [24, 256, 1000] if tier == 'quick' else [1, 23, 24, 255, 256, 1000, 65535, 65536]
@@ -96,6 +102,13 @@ def enumerate_cases(tier):
                        {'repl': not repl, 'crc': 0, 'kind': 'hop', 'dlen': 0, 'xflags': 0x10 if crc == 2 else 0}],
                'no_fragment': False, 'is_fragment': False, 'mtu_kind': 'header', 'mtu_off': off, 'mtu_abs': 0,
                'src': ['dtn', '//src/'], 'dest': ['dtn', '//far/away'], 'ts': [1000, 1], 'flags': 0}
+
+
+def _seen_cases(tier):
+    for mode, plen, off, seen in itertools.product(('originate', 'forward'), (300, 1000), (1, 24), (1, 2)):
+        yield {'mode': mode, 'plen': plen, 'pseed': 1, 'pcrc': 1, 'ycrc': 1, 'ext': [], 'no_fragment': False, 'is_fragment': False,
+               'mtu_kind': 'header', 'mtu_off': off, 'mtu_abs': 0, 'src': ['dtn', '//src/'], 'dest': ['dtn', '//next/svc'],
+               'ts': [1000, 1], 'flags': 0, 'policy': None, 'seen': seen}
 
 
 def _admin_cases(tier):
@@ -307,6 +320,13 @@ def execute(case):
     if mtu is not None:
         mtu = max(1, mtu)
     node.set_mtu(0, mtu)
+    if case.get('seen'):
+        # the convergence layer of the route reports the next hop as seen, once or several times (what the UDPCL adaptor
+        # does for every polling message it hears: Agent.cl_attach wires its peer_node_seen to this function); the
+        # configured route and its MTU still apply to what is sent there afterwards
+        for _ in range(int(case['seen'])):
+            node.agent._cl_peer_node_seen('fake')('dtn://next/', {'next': 'dtn://next/'})
+        out.label('next-hop-seen-by-cl')
     if mode == 'forward':
         err = node.receive(wire)
     else:
